@@ -462,6 +462,14 @@ func (env *Env) call(n *ECall) Val {
 		r, m := arg(0), arg(1)
 		a := env.st.heapGet("ghost.delivered", ArrSort(ArrSort(SInt)))
 		return intVal(Select(Select(a, r.T()), m.T()))
+	case "evcount":
+		// evcount(Kind, pkg.MsgType, Field, key)
+		kind := n.Args[0].(*EIdent).Name
+		tn := exprTypeName(n.Args[1])
+		t := env.pkg.resolveType(tn)
+		fld := n.Args[2].(*EIdent).Name
+		a := env.st.heapGet("ghost.ev:"+kind+":"+typeName(t)+":"+fld, ArrSort(SInt))
+		return intVal(Select(a, arg(3).T()))
 	case "once_done":
 		p := arg(0)
 		a := env.st.heapGet("once:"+p.prefix(), ArrSort(SBool))
